@@ -104,7 +104,8 @@ struct PDeal {
 #[derive(Clone, Debug, Serialize, Deserialize)]
 enum MOp {
     AddBalance { from: u8, epoch: i64, who: u8, #[serde(with = "i128_str")] value: i128 },
-    Withdraw { caller: u8, epoch: i64, who: u8, #[serde(with = "i128_str")] amount: i128 },
+    /// `fail`: exit code with which the payout transfer (the nested METHOD_SEND) is made to fail
+    Withdraw { caller: u8, epoch: i64, who: u8, #[serde(with = "i128_str")] amount: i128, #[serde(default)] fail: Option<u32> },
     Publish { caller: u8, epoch: i64, deals: Vec<PDeal> },
     Activate { caller: u8, epoch: i64, sectors: Vec<(u64, i64, Vec<u64>)> },
     ContentChanged { caller: u8, epoch: i64, sectors: Vec<(u64, i64, Vec<(Option<u64>, u8, u64)>)> },
@@ -136,6 +137,8 @@ struct World {
     ids: Vec<Address>,
     /// party index -> key address (accounts only)
     keys: Vec<Option<Address>>,
+    /// set by run_op: the payout transfer of the last WithdrawBalance was attempted and failed
+    payout_failed: std::cell::Cell<bool>,
 }
 
 fn setup(interval: i64) -> World {
@@ -180,7 +183,7 @@ fn setup(interval: i64) -> World {
         .collect();
     assert!(v.actor(&Address::new_id(NO_ACTOR_ID)).is_none());
     v.take_invocations();
-    World { v, ids, keys }
+    World { v, ids, keys, payout_failed: std::cell::Cell::new(false) }
 }
 
 fn pid(w: &World, idx: u8) -> u64 {
@@ -538,8 +541,9 @@ fn coq_op(w: &World, op: &MOp) -> String {
     match op {
         MOp::AddBalance { epoch, who, value, .. } => format!(
             "AddBalance {} {} {} {}", cf::z(*epoch), pid(w, *who), coq_target(&target_of(w, &w.ids[*who as usize])), cf::z(*value)),
-        MOp::Withdraw { caller, epoch, who, amount } => format!(
-            "Withdraw {} {} {} {} {}", pid(w, *caller), cf::z(*epoch), pid(w, *who), coq_target(&target_of(w, &w.ids[*who as usize])), cf::z(*amount)),
+        MOp::Withdraw { caller, epoch, who, amount, fail } => format!(
+            "Withdraw {} {} {} {} {} {}", pid(w, *caller), cf::z(*epoch), pid(w, *who), coq_target(&target_of(w, &w.ids[*who as usize])), cf::z(*amount),
+            cf::opt(fail.map(|c| c.to_string()))),
         MOp::Publish { caller, epoch, deals } => {
             let t = match deals.first() {
                 Some(d) => target_of(w, &w.ids[d.provider as usize]),
@@ -614,15 +618,24 @@ fn run_op(w: &World, op: &MOp) -> (u32, Vec<i128>) {
             let r = exec(&w.v, &w.ids[*from as usize], &market, &tok(*value), MM::AddBalance as u64, Some(w.ids[*who as usize]));
             (code(&r), vec![])
         }
-        MOp::Withdraw { caller, who, amount, .. } => {
+        MOp::Withdraw { caller, who, amount, fail, .. } => {
             let p = WithdrawBalanceParams { provider_or_client: w.ids[*who as usize], amount: tok(*amount) };
+            if let Some(c) = fail {
+                // the payout is the first nested send for an account, the second (after ControlAddresses)
+                // for a miner
+                let k = if matches!(target_of(w, &w.ids[*who as usize]), Target::Miner(..)) { 1 } else { 0 };
+                w.v.fail_plan.replace(Some((k, fvm_shared::error::ExitCode::new(*c))));
+            }
             let r = exec(&w.v, &w.ids[*caller as usize], &market, &zero, MM::WithdrawBalance as u64, Some(p));
+            w.v.fail_plan.replace(None);
+            let inv = w.v.take_invocations();
+            let payout = inv.last().and_then(|t| find_send(t, market.id().unwrap()));
+            w.payout_failed.set(payout.map(|s| !s.exit_code.is_success()).unwrap_or(false));
             if code(&r) != 0 {
                 return (code(&r), vec![]);
             }
             let ret: WithdrawBalanceReturn = r.ret.unwrap().deserialize().unwrap();
-            let inv = w.v.take_invocations();
-            let send = find_send(inv.last().unwrap(), market.id().unwrap()).expect("withdraw without a send");
+            let send = payout.expect("withdraw without a send");
             let to = w.v.resolve_id_address(&send.to).unwrap().id().unwrap();
             assert_eq!(send.value, ret.amount_withdrawn);
             (0, vec![i128_of(&ret.amount_withdrawn), to as i128])
@@ -822,6 +835,16 @@ fn monitor(w: &World, op: &MOp, pre: &Snap, post: &Snap, code: u32, ret: &[i128]
     let mut bad: Vec<Fail> = vec![];
     let epoch = op.epoch();
     let parties: Vec<u64> = (0..=10u8).map(|i| pid(w, i)).collect();
+    // a withdrawal whose payout transfer failed must fail as a whole
+    if let MOp::Withdraw { who, .. } = op {
+        let failed_payout = w.payout_failed.get();
+        let a = pid(w, *who);
+        if failed_payout && (code == 0 || post.esc(a) < pre.esc(a)) {
+            bad.push(fail("C06", "withdraw-debited-without-payout", format!(
+                "the payout transfer of a withdrawal of {} failed, yet the call returned exit {} and the escrow entry went {} -> {}",
+                a, code, pre.esc(a), post.esc(a))));
+        }
+    }
 
     // ----- ghost update from what the implementation did -----
     if code == 0 {
@@ -1321,7 +1344,8 @@ fn gen_op(r: &mut Prng, w: &World, s: &Snap, g: &mut Ghost, epoch: &mut i64, ste
                 (70..=84, 3) => P_CTRL,
                 _ => any_party(r),
             };
-            MOp::Withdraw { caller, epoch, who, amount }
+            let fail = if r.chance(12) { Some(*r.pick(&[22u32, 40])) } else { None };
+            MOp::Withdraw { caller, epoch, who, amount, fail }
         }
         16..=42 => {
             let n = match r.below(100) { 0..=54 => 1, 55..=79 => 2, 80..=92 => 3, 93..=97 => 5, _ => 0 };
@@ -1597,7 +1621,7 @@ fn schedules(interval: i64) -> Vec<MCase> {
                         kk /= 3;
                     }
                     ops.push(MOp::Settle { caller: P_STRANGER, epoch: e + interval + 1, ids: vec![0] });
-                    ops.push(MOp::Withdraw { caller: 0, epoch: e + interval + 2, who: 0, amount: 1 << 62 });
+                    ops.push(MOp::Withdraw { caller: 0, epoch: e + interval + 2, who: 0, amount: 1 << 62, fail: None });
                     out.push(MCase { interval, ops });
                 }
             }
